@@ -664,7 +664,10 @@ mod globset {
 			ignore_files.push(IgnoreFile { path, applies_in: Some(origin.clone()), applies_to: None });
 		}
 		let whitelist: Vec<PathBuf> = case["whitelist"].as_array().unwrap().iter().map(|w| rel(&origin, w)).collect();
-		let exts: Vec<OsString> = if case["exts"].as_bool().unwrap() { vec!["o".into()] } else { vec![] };
+		let exts: Vec<OsString> = match case["extlist"].as_array() {
+			Some(l) => l.iter().map(|e| e.as_str().unwrap().into()).collect(),
+			None => if case["exts"].as_bool().unwrap() { vec!["o".into()] } else { vec![] },
+		};
 		let filterer = match GlobsetFilterer::new(
 			&origin,
 			strs(&case["filters"]).into_iter().map(|f| (f, None)),
